@@ -80,6 +80,10 @@ def plan(tier, seed):
     for p in range(4 if tier == 'thorough' else 2):
         specs.append(dict(kind='methods', seed=seed * 10 + p,
                           samples=4000 if tier == 'thorough' else 600))
+    # dd._copy.load_json against the cudd handle discipline
+    for p in range(4 if tier == 'thorough' else 1):
+        specs.append(dict(kind='jsonload', seed=seed * 10 + p,
+                          samples=1500 if tier == 'thorough' else 280))
     # the hand-written ZDD recursions of cudd_zdd.pyx
     for entry in ('_c_exist', '_c_forall'):
         specs.append(dict(kind='zdd', mode='all', entry=entry, part=0,
@@ -89,6 +93,9 @@ def plan(tier, seed):
         for p in range(parts):
             specs.append(dict(kind='zdd', mode='all', entry=entry, part=p,
                               parts=parts, seed=seed))
+    for p in range(8 if tier == 'thorough' else 2):
+        specs.append(dict(kind='zdd', mode='seq', part=p, seed=seed,
+                          samples=6000 if tier == 'thorough' else 1200))
     for p in range(8 if tier == 'thorough' else 4):
         specs.append(dict(kind='zdd', mode='faults', part=p, seed=seed,
                           samples=2500 if tier == 'thorough' else 400))
@@ -156,7 +163,14 @@ def run_apply(spec, out):
                      dict(got=got, want=want))
         return 'ok'
 
-    for op in spec['ops']:
+    # the ZDD wrapper reads the library's current variable order: run
+    # under several orders (level -> index)
+    perms = [[0, 1, 2]]
+    if w == 'cudd_zdd':
+        perms = [[0, 1, 2], [2, 0, 1], [1, 2, 0]]
+    for perm, op in [(p_, o_) for p_ in perms for o_ in spec['ops']]:
+        P.ZPERM['invperm'] = list(perm)
+        base['perm'] = list(perm)
         if op in un:
             res = {one(op, (t,)) for t in range(F + 1)}
             nt += 254 if 'ok' in res else 0
@@ -182,6 +196,7 @@ def run_apply(spec, out):
         out.label(f'{w}.{"accepted" if "ok" in res else "rejected"}.{op}')
         if res == {'rejected', 'ok'}:
             out.label(f'{w}.partly_rejected.{op}')
+    P.ZPERM['invperm'] = [0, 1, 2]
     out.count(max(cnt, 1), nt)
     out.sample(dict(base, op=spec['ops'][0], operands=[0x96, 0xe8],
                     reached=M.reached, not_reached=M.not_reached))
@@ -557,15 +572,12 @@ ZDD_ENTRY = ['_c_exist', '_c_forall', '_c_disjoin', '_c_conjoin',
              '_c_compose']
 
 
-def zdd_case(Z, entry, a, b, c, fail_at=None, fail_kind='oom'):
-    """Run one entry point of cudd_zdd.pyx on a fresh structural ZDD
-    manager.  Returns (creations, outcome)."""
-    mgr = Z.new_manager()
+def _zdd_args(Z, entry, a, b, c, held):
+    """Arguments of one entry point (operands appended to `held`) and the
+    expected family (None where the statement says nothing)."""
     names = Z.names
     n = Z.n
     F = tt.full(n)
-    Z.dealloc_errors = 0
-    held = []
     want = None
     u = Z.fn(a & F)
     held.append(u)
@@ -579,6 +591,7 @@ def zdd_case(Z, entry, a, b, c, fail_at=None, fail_kind='oom'):
         v = Z.fn(b & F)
         held.append(v)
         args = (u, v)
+        want = ((a | b) if entry == '_c_disjoin' else (a & b)) & F
     else:
         d = {}
         for j in range(n):
@@ -591,6 +604,52 @@ def zdd_case(Z, entry, a, b, c, fail_at=None, fail_kind='oom'):
             held.append(g)
             d[names[0]] = g
         args = (u, d)
+    return args, want
+
+
+def zdd_sequence(Z, steps):
+    """Several entry points in a row on ONE structural manager (shared
+    computed table, dead and reclaimed nodes): every result is checked,
+    some are kept alive, and at the end nothing may stay referenced."""
+    mgr = Z.new_manager()
+    Z.dealloc_errors = 0
+    kept = []
+    for k, (entry, a, b, c) in enumerate(steps):
+        held = []
+        args, want = _zdd_args(Z, entry, a, b, c, held)
+        r = Z.call(entry, *args)
+        require(r is not None and r.node is not None, 'zdd.no_result')
+        if want is not None:
+            got = mgr.family(r.node)
+            require(got == want, 'zdd.wrong_result_in_sequence',
+                    dict(entry=entry, step=k, got=got, want=want))
+        if (a + b + k) % 2:
+            kept.append(r)
+        if (a + k) % 3 == 0:
+            kept.append(held[0])
+        r = args = held = None
+    kept = None
+    live = mgr.live_refs()
+    if live:
+        gc.collect()
+        live = mgr.live_refs()
+    require(not live, 'zdd.temporary_reference_leaked',
+            dict(live=live, steps=len(steps)))
+    require(not mgr.negative, 'zdd.counter_negative')
+    require(Z.dealloc_errors == 0, 'zdd.dealloc_raised',
+            dict(error=getattr(Z, 'last_dealloc_error', None)))
+
+
+def zdd_case(Z, entry, a, b, c, fail_at=None, fail_kind='oom'):
+    """Run one entry point of cudd_zdd.pyx on a fresh structural ZDD
+    manager.  Returns (creations, outcome)."""
+    mgr = Z.new_manager()
+    names = Z.names
+    n = Z.n
+    F = tt.full(n)
+    Z.dealloc_errors = 0
+    held = []
+    args, want = _zdd_args(Z, entry, a, b, c, held)
     base_creations = mgr.creations
     mgr.fail_at = fail_at
     mgr.fail_kind = fail_kind
@@ -656,7 +715,23 @@ def run_zdd(spec, out):
     base = dict(kind='zddcase')
     cnt = nt = 0
     r = random.Random(f'c19z:{spec["seed"]}:{spec["part"]}')
-    if spec['mode'] == 'all':
+    if spec['mode'] == 'seq':
+        for k in range(spec['samples']):
+            pool = [r.randrange(256) for _ in range(4)]
+            steps = []
+            for _ in range(r.randint(3, 8)):
+                entry = r.choice(['_c_exist', '_c_forall', '_c_exist',
+                                  '_c_forall', '_c_disjoin', '_c_conjoin',
+                                  '_c_compose'])
+                a = r.choice(pool)
+                b = (r.randrange(1, 8) if entry in ('_c_exist', '_c_forall')
+                     else r.choice(pool))
+                steps.append([entry, a, b, r.randrange(8)])
+            case = dict(kind='zddseq', steps=steps)
+            out.guard(case, lambda: zdd_sequence(Z, steps))
+            cnt += 1
+            nt += 1
+    elif spec['mode'] == 'all':
         entry = spec['entry']
         for a in range(256):
             bs = range(8) if entry in ('_c_exist', '_c_forall') \
@@ -695,7 +770,126 @@ def run_zdd(spec, out):
     out.exhaustive = (spec['mode'] == 'all')
 
 
+_JSON_MODEL = []
+
+
+def json_load_case(case):
+    """`dd._copy.load_json` (the code behind `dd.cudd.BDD.load` of a JSON
+    file) against the cudd wrapper model: the functions come back, every
+    returned handle holds exactly one library reference, and a load that
+    fails half-way gives every reference back."""
+    import os
+    import dd.autoref as _ar
+    import dd._copy as _copy
+    from ..denote import Builder
+    if not _JSON_MODEL:
+        M_ = P.Model('cudd')
+        M_.extend_for_json_load()
+        _JSON_MODEL.append(M_)
+    M = _JSON_MODEL[0]
+    M.L.count = {}
+    M.L.negative = False
+    M.L.fail_at = None
+    M.dealloc_errors = 0
+    F = P.F
+    A = _ar.BDD()
+    A.declare(*P.NAMES)
+    bd = Builder(A._bdd, P.NAMES)
+    tabs = [t & F for t in case['roots']]
+    fs = [_ar.Function(bd(t), A) for t in tabs]
+    arg = ({f'r{i}': f for i, f in enumerate(fs)} if case['as_dict']
+           else list(fs))
+    cwd = os.getcwd()
+    src, dmg = os.path.join(cwd, 'jl_src.json'), os.path.join(
+        cwd, 'jl_in.json')
+    _copy.dump_json(arg, src)
+    with open(src) as f:
+        lines = f.read().split('\n')
+    os.remove(src)
+    kind, k = case['damage']
+    body = [i for i, l in enumerate(lines)
+            if l.startswith('"') and ': [' in l and 'level_of_var' not in l
+            and 'roots' not in l]
+    if kind == 'cut':
+        lines = lines[:2 + k % max(1, len(lines) - 2)]
+    elif kind == 'missing' and body:
+        i = body[k % len(body)]
+        lines[i] = lines[i].rsplit(',', 1)[0] + ', 99999]'
+    elif kind == 'badlevel' and body:
+        i = body[k % len(body)]
+        head, rest = lines[i].split('[', 1)
+        lines[i] = head + '[9' + rest
+    elif kind == 'noroots':
+        lines = [l for l in lines if '"roots"' not in l]
+    with open(dmg, 'w') as f:
+        f.write('\n'.join(lines))
+    back = None
+    raised = None
+    try:
+        try:
+            back = _copy.load_json(dmg, M.mgr,
+                                   load_order=case['load_order'])
+        except P.NotReached:
+            raise
+        except Exception as e:
+            raised = type(e).__name__
+            e = None
+    finally:
+        os.remove(dmg)
+    if raised is None:
+        vals = list(back.values()) if isinstance(back, dict) else list(back)
+        keys = list(back) if isinstance(back, dict) else None
+        require((keys == [f'r{i}' for i in range(len(tabs))])
+                if case['as_dict'] else len(vals) == len(tabs),
+                'json.load_shape')
+        for f, t in zip(vals, tabs):
+            require(f.node == t and f._ref == 1, 'json.load_wrong_function',
+                    dict(got=f.node, want=t))
+        want = {}
+        for f in vals:
+            want[f.node] = want.get(f.node, 0) + 1
+        gc.collect()
+        require(M.L.live() == want, 'json.load_reference_counts',
+                dict(live=M.L.live(), want=want))
+        f = None
+        vals = back = None
+    gc.collect()
+    live = M.L.live()
+    require(not live, 'json.load_leaks_references',
+            dict(live=live, raised=raised, damage=case['damage']))
+    require(not M.L.negative, 'json.load_counter_negative')
+    require(M.dealloc_errors == 0, 'json.load_dealloc_raised',
+            dict(error=M.last_dealloc_error))
+    return raised
+
+
+def run_jsonload(spec, out):
+    r = random.Random(f'c19j:{spec["seed"]}')
+    cnt = nt = 0
+    for k in range(spec['samples']):
+        kind = ['none', 'cut', 'missing', 'badlevel', 'noroots',
+                'cut', 'missing'][k % 7]
+        case = dict(kind='jsonload',
+                    roots=[r.randrange(256)
+                           for _ in range(r.randint(1, 3))],
+                    as_dict=bool(r.randrange(2)),
+                    load_order=bool(r.randrange(2)),
+                    damage=[kind, r.randrange(64)])
+        res = []
+        out.guard(case, lambda: res.append(json_load_case(case)))
+        cnt += 1
+        if res and res[0]:
+            nt += 1
+            out.label('jsonload.failed_load.' + kind)
+        elif res:
+            out.label('jsonload.loaded.' + kind)
+    out.count(cnt, nt)
+    out.sample(case, force=True)
+
+
 def run(spec, out):
+    if spec['kind'] == 'jsonload':
+        return run_jsonload(spec, out)
     if spec['kind'] == 'zdd':
         return run_zdd(spec, out)
     if spec['kind'] == 'methods':
@@ -713,6 +907,15 @@ def replay_into(case, out):
             case.get('fail_at')))
         out.count(1, 0)
         return
+    if k == 'jsonload':
+        out.guard(case, lambda: json_load_case(case))
+        out.count(1, 0)
+        return
+    if k == 'zddseq':
+        Z = P.ZddModel(3)
+        out.guard(case, lambda: zdd_sequence(Z, case['steps']))
+        out.count(1, 0)
+        return
     if k == 'zddcase':
         Z = P.ZddModel(3)
         out.guard(case, lambda: zdd_case(
@@ -723,6 +926,7 @@ def replay_into(case, out):
     M = P.Model(case['wrapper'])
     if k == 'applycase':
         def body():
+            P.ZPERM['invperm'] = list(case.get('perm', [0, 1, 2]))
             b, refs, den = reference()
             fs = [M.fn(t) for t in case['operands']]
             r = M.mgr.apply(case['op'], *fs)
